@@ -6,7 +6,8 @@ HERE = os.path.dirname(os.path.dirname(os.path.abspath(__file__)))
 sys.path.insert(0, os.path.join(HERE, 'seeded'))
 from table2_base import T
 from table3_base import T3
-desc = dict(T); desc.update(T3)
+from table4_base import T4
+desc = dict(T); desc.update(T3); desc.update(T4)
 # result lines:  "<PID> <seeddir> [<CK>]: exit=<rc> (..s) N violation lines, M inconclusive"
 res = {}
 for f in sorted(glob.glob(os.path.join(HERE, 'seeded', 'final_run_logs', '*.txt')), key=lambda q: (os.path.basename(q).startswith('follow'), q)):     # follow-up runs (after replay fixes) are read last
@@ -16,6 +17,7 @@ for f in sorted(glob.glob(os.path.join(HERE, 'seeded', 'final_run_logs', '*.txt'
         pid, sd, ck, rc = m.group(1), m.group(2), m.group(3), int(m.group(4))
         sd = sd.rstrip('/')
         if '/tmp/seed3_' in sd: key = '%s-r3-%s' % (pid, os.path.basename(sd))
+        elif '/tmp/seed4_' in sd: key = '%s-r4-%s' % (pid, os.path.basename(sd))
         elif '/tmp/rb/' in sd: key = os.path.basename(sd)
         else: key = os.path.basename(sd)
         res.setdefault(key, {})[ck] = rc
@@ -33,14 +35,14 @@ for key, (breaks, needs, by) in sorted(desc.items()):
     table[key] = {'breaks': breaks, 'needs': needs, 'result': result, 'caught_by': caught or None, 'runs': r}
     dst = os.path.join(HERE, 'seeded', key)
     if os.path.isdir(dst):
-        meta = {'property': pid, 'round': 2 if '-r2-' in key else 3, 'breaks': breaks, 'needs_to_manifest': needs,
+        meta = {'property': pid, 'round': 2 if '-r2-' in key else (3 if '-r3-' in key else 4), 'breaks': breaks, 'needs_to_manifest': needs,
                 'confirmed': 'scratch worktree of the /repo HEAD of that time: full suite passes with the patch (191 passed), demo.py exits 1 with the patch and 0 without it '
                              '(tools/confirm_seed.sh; separate empty compile cache per demo run)',
                 'check_result': result, 'caught_by': caught or None, 'origin': 'independent sub-agent given only the property text (and the ideas already used in earlier rounds)'}
         json.dump(meta, open(os.path.join(dst, 'meta.json'), 'w'), indent=1)
 json.dump(table, open(os.path.join(HERE, 'seeded', 'TABLE_r2r3.json'), 'w'), indent=1)
 n = len(table); c = sum(1 for v in table.values() if v['caught_by'])
-print('rounds 2+3: %d seeds, %d caught' % (n, c))
+print('rounds 2-4: %d seeds, %d caught' % (n, c))
 for k, v in table.items():
     if not v['caught_by']: print('  not caught:', k, '|', v['result'])
 # round 1 results of the final run (for DESIGN)
